@@ -72,3 +72,183 @@ Proof.
   - destruct sys; [now exists []|discriminate].
   - destruct (IH _ H) as (es & E). rewrite E. eexists. reflexivity.
 Qed.
+
+(* ============================================================================================== *)
+(* 2. list helpers                                                                                 *)
+(* ============================================================================================== *)
+Lemma nth_error_aidx l a : In a l -> nth_error l (aidx l a) = Some a.
+Proof.
+  induction l as [|x t IH]; intros H; [destruct H|]. cbn [aidx]. destruct (N.eqb x a) eqn:E.
+  - apply N.eqb_eq in E. now subst.
+  - apply N.eqb_neq in E. destruct H as [->|H]; [congruence|]. cbn. now apply IH.
+Qed.
+
+Lemma before_pairs r a b : In a r -> In b r -> before r a b = true -> In (a, b) (ordered_pairs r).
+Proof.
+  intros Ha Hb H. unfold before in H. apply Nat.ltb_lt in H.
+  exact (ordered_pairs_nth r _ _ a b H (nth_error_aidx r a Ha) (nth_error_aidx r b Hb)).
+Qed.
+
+Lemma pairs_before r a b : NoDup r -> In (a, b) (ordered_pairs r) -> before r a b = true.
+Proof.
+  intros Hnd Hin. pose proof (sorted_before_segment r [] r [] Hnd ltac:(now rewrite app_nil_r)) as Hs.
+  apply SS_pairs in Hs. rewrite Forall_forall in Hs. exact (Hs (a, b) Hin).
+Qed.
+
+Lemma nth_skipn {T} (l : list T) n i d : nth i (skipn n l) d = nth (n + i) l d.
+Proof. revert l. induction n as [|n IH]; intros l; [reflexivity|]. destruct l; [destruct i; reflexivity|]. cbn. apply IH. Qed.
+
+Lemma posf_combine axis l a : In a axis -> (length axis <= length l)%nat ->
+  posf (combine axis l) a = nth (aidx axis a) l 0.
+Proof.
+  unfold posf. revert l. induction axis as [|y t IH]; intros l Ha Hl; [destruct Ha|].
+  destruct l as [|q l']; [cbn in Hl; lia|]. cbn [combine apos_lookup aidx].
+  destruct (N.eqb y a) eqn:E; [reflexivity|]. apply N.eqb_neq in E. destruct Ha as [->|Ha]; [congruence|].
+  cbn [nth]. apply IH; [assumption|]. cbn in Hl. lia.
+Qed.
+
+Lemma Forall2_nth {A B} (P : A -> B -> Prop) l1 l2 : length l1 = length l2 ->
+  (forall k a b, nth_error l1 k = Some a -> nth_error l2 k = Some b -> P a b) -> Forall2 P l1 l2.
+Proof.
+  revert l2. induction l1 as [|x t IH]; intros [|y t2] Hl H; try discriminate; constructor.
+  - apply (H 0%nat); reflexivity.
+  - apply IH; [now injection Hl|]. intros k a b Ha Hb. apply (H (S k)); assumption.
+Qed.
+
+Lemma Forall2_nth_inv {A B} (P : A -> B -> Prop) l1 l2 : Forall2 P l1 l2 ->
+  forall k a b, nth_error l1 k = Some a -> nth_error l2 k = Some b -> P a b.
+Proof.
+  induction 1 as [|x y t1 t2 Hxy Ht IH]; intros k a b Ha Hb; [destruct k; discriminate|].
+  destruct k as [|k]; cbn in Ha, Hb; [injection Ha as <-; injection Hb as <-; assumption|now apply (IH k)].
+Qed.
+
+Lemma eval_map_scale k c env : eval c (map (fun x => Qred (k * x)) env) == k * eval c env.
+Proof.
+  revert env. induction c as [|c0 cs IH]; intros [|e0 es]; cbn [map eval]; try ring.
+  rewrite Qred_correct, IH. ring.
+Qed.
+
+(* ============================================================================================== *)
+(* 3. the system of an axis, constraint by constraint                                              *)
+(* ============================================================================================== *)
+Lemma eval_c_vote n axis v a b env :
+  eval (c_vote n axis v (a, b)) env ==
+  if (aidx axis a <? aidx axis b)%nat then 2 * nth v env 0 - xof n axis env a - xof n axis env b
+  else xof n axis env a + xof n axis env b - 2 * nth v env 0.
+Proof.
+  unfold c_vote, xof. cbn [fst snd]. destruct (aidx axis a <? aidx axis b)%nat; rewrite !eval_ladd, !eval_unit; ring.
+Qed.
+
+Section Sys.
+Variable P : Q -> Prop.
+Definition satP (env : list Q) (sys : list lin) : Prop := Forall (fun c => P (eval c env)) sys.
+
+Lemma vote_sys_satP n axis env prefs : forall v0,
+  satP env (vote_sys n axis v0 prefs) <->
+  (forall k r, nth_error prefs k = Some r -> forall ab, In ab (ordered_pairs r) -> P (eval (c_vote n axis (v0 + k) ab) env)).
+Proof.
+  unfold satP. induction prefs as [|r t IH]; intros v0; cbn [vote_sys].
+  - split; [intros _ k r H; destruct k; discriminate|constructor].
+  - rewrite Forall_app, Forall_map, IH. split.
+    + intros (H1 & H2) k r' Hk ab Hab. destruct k as [|k]; cbn in Hk.
+      * injection Hk as <-. rewrite Nat.add_0_r. rewrite Forall_forall in H1. now apply H1.
+      * rewrite Nat.add_succ_r. apply (H2 k r' Hk ab Hab).
+    + intros H. split.
+      * apply Forall_forall. intros ab Hab. specialize (H 0%nat r eq_refl ab Hab). now rewrite Nat.add_0_r in H.
+      * intros k r' Hk ab Hab. specialize (H (S k) r' Hk ab Hab). now rewrite Nat.add_succ_r in H.
+Qed.
+
+Lemma eucl_system_satP axis prefs env :
+  satP env (eucl_system axis prefs) <->
+  (forall ab, In ab (ordered_pairs axis) -> P (eval (c_axis (length prefs) axis ab) env)) /\
+  (forall k r, nth_error prefs k = Some r -> forall ab, In ab (ordered_pairs r) ->
+               P (eval (c_vote (length prefs) axis k ab) env)).
+Proof.
+  unfold eucl_system. cbv zeta. unfold satP at 1. rewrite Forall_app. fold (satP env (vote_sys (length prefs) axis 0 prefs)).
+  rewrite vote_sys_satP, Forall_map, Forall_forall. cbn [plus]. reflexivity.
+Qed.
+End Sys.
+
+Lemma sat_satP env sys : sat env sys <-> satP (fun v => v < 0) env sys.
+Proof. reflexivity. Qed.
+
+(* ============================================================================================== *)
+(* 4. the LP constraints and the system                                                            *)
+(* ============================================================================================== *)
+Section Instance.
+Variable axis : list N.
+Variable prefs : list (list N).
+Hypothesis Hnd : NoDup axis.
+Hypothesis Hpf : Forall (fun r => Permutation axis r) prefs.
+Let n := length prefs.
+
+Lemma pref_facts k r : nth_error prefs k = Some r -> NoDup r /\ (forall c, In c r <-> In c axis).
+Proof.
+  intros Hk. rewrite Forall_forall in Hpf. pose proof (Hpf r (nth_error_In _ _ Hk)) as HP. split.
+  - eapply Permutation_NoDup; eassumption.
+  - intros c. split; apply Permutation_in; [now apply Permutation_sym|assumption].
+Qed.
+
+Lemma pairs_aidx a b : In (a, b) (ordered_pairs axis) -> (aidx axis a <? aidx axis b)%nat = true.
+Proof. intros H. exact (pairs_before axis a b Hnd H). Qed.
+
+Lemma aidx_pairs a b : In a axis -> In b axis -> (aidx axis a <? aidx axis b)%nat = true -> In (a, b) (ordered_pairs axis).
+Proof. intros Ha Hb H. now apply before_pairs. Qed.
+
+(* a solution of the LP is a solution of the system (with margins) *)
+Lemma lp_sat_system vs xs : lp_sat prefs axis vs xs ->
+  satP (fun v => v <= -1) (vs ++ map (posf xs) axis) (eucl_system axis prefs).
+Proof.
+  intros (Hax & Hv). pose proof (Forall2_length _ _ _ Hv) as Hlen. fold n in Hlen.
+  set (env := vs ++ map (posf xs) axis).
+  assert (Hx : forall a, In a axis -> xof n axis env a = posf xs a).
+  { intros a Ha. unfold xof, env. rewrite <- Hlen, app_nth2_plus. now apply aidx_nth_map. }
+  rewrite Forall_forall in Hax. apply eucl_system_satP. fold n. split.
+  - intros [a b] Hab. destruct (ordered_pairs_In _ _ _ Hab) as (Ha & Hb).
+    rewrite eval_c_axis, (Hx a Ha), (Hx b Hb). specialize (Hax _ Hab). cbn [fst snd] in Hax. lra.
+  - intros k r Hk [a b] Hab. destruct (pref_facts k r Hk) as (Hndr & Hmem).
+    destruct (ordered_pairs_In _ _ _ Hab) as (Har & Hbr). pose proof (proj1 (Hmem a) Har) as Ha. pose proof (proj1 (Hmem b) Hbr) as Hb.
+    pose proof (ordered_pairs_neq _ _ _ Hndr Hab) as Hne. pose proof (pairs_before r a b Hndr Hab) as Hbef.
+    assert (Hkn : (k < length vs)%nat) by (rewrite Hlen; apply nth_error_Some; congruence).
+    destruct (nth_error vs k) as [p|] eqn:Ep; [|apply nth_error_None in Ep; lia].
+    pose proof (Forall2_nth_inv _ _ _ Hv k p r Ep Hk) as Hc. rewrite Forall_forall in Hc.
+    assert (Enth : nth k env 0 = p) by (unfold env; rewrite app_nth1 by assumption; now apply nth_error_nth).
+    rewrite eval_c_vote, Enth, (Hx a Ha), (Hx b Hb).
+    destruct (aidx axis a <? aidx axis b)%nat eqn:E.
+    + specialize (Hc (a, b) (aidx_pairs a b Ha Hb E)). cbn [fst snd] in Hc. rewrite Hbef in Hc. lra.
+    + assert (E' : (aidx axis b <? aidx axis a)%nat = true).
+      { apply Nat.ltb_lt. apply Nat.ltb_ge in E. destruct (Nat.eq_dec (aidx axis a) (aidx axis b)) as [Eq|]; [|lia].
+        exfalso. apply Hne. now apply (aidx_inj axis). }
+      specialize (Hc (b, a) (aidx_pairs b a Hb Ha E')). cbn [fst snd] in Hc. rewrite (before_asym _ _ _ Hbef) in Hc. lra.
+Qed.
+
+(* a point of the system with margins 2 is a solution of the LP *)
+Lemma system_lp_sat env : length env = (n + length axis)%nat ->
+  satP (fun v => v <= -2) env (eucl_system axis prefs) ->
+  lp_sat prefs axis (firstn n env) (combine axis (skipn n env)).
+Proof.
+  intros Hlen Hs. apply eucl_system_satP in Hs. fold n in Hs. destruct Hs as (Hax & Hv).
+  set (xs := combine axis (skipn n env)).
+  assert (Hx : forall a, In a axis -> posf xs a = xof n axis env a).
+  { intros a Ha. unfold xs. rewrite posf_combine; [|assumption|rewrite skipn_length; lia]. unfold xof. apply nth_skipn. }
+  split.
+  - apply Forall_forall. intros [a b] Hab. cbn [fst snd]. destruct (ordered_pairs_In _ _ _ Hab) as (Ha & Hb).
+    specialize (Hax _ Hab). rewrite eval_c_axis in Hax. rewrite (Hx a Ha), (Hx b Hb). lra.
+  - apply Forall2_nth; [rewrite firstn_length; fold n; lia|].
+    intros k p r Hp Hk. apply Forall_forall. intros [a b] Hab. cbn [fst snd].
+    destruct (ordered_pairs_In _ _ _ Hab) as (Ha & Hb). destruct (pref_facts k r Hk) as (Hndr & Hmem).
+    assert (Hkn : (k < n)%nat) by (apply nth_error_Some; unfold n; congruence).
+    assert (Ep : nth k env 0 = p).
+    { rewrite <- (nth_firstn_lt env n k 0 Hkn). now apply nth_error_nth. }
+    pose proof (pairs_aidx a b Hab) as Eab.
+    pose proof (ordered_pairs_neq _ _ _ Hnd Hab) as Hne.
+    rewrite (Hx a Ha), (Hx b Hb). destruct (before r a b) eqn:E.
+    + specialize (Hv k r Hk (a, b) (before_pairs r a b (proj2 (Hmem a) Ha) (proj2 (Hmem b) Hb) E)).
+      rewrite eval_c_vote, Eab, Ep in Hv. lra.
+    + pose proof (before_total r a b (proj2 (Hmem a) Ha) (proj2 (Hmem b) Hb) Hne E) as E'.
+      specialize (Hv k r Hk (b, a) (before_pairs r b a (proj2 (Hmem b) Hb) (proj2 (Hmem a) Ha) E')).
+      assert (Eba : (aidx axis b <? aidx axis a)%nat = false).
+      { apply Nat.ltb_ge. apply Nat.ltb_lt in Eab. lia. }
+      rewrite eval_c_vote, Eba, Ep in Hv. lra.
+Qed.
+End Instance.
